@@ -27,6 +27,12 @@ fn main() {
     let tier = arg(&args, "--tier").unwrap_or("quick").to_string();
     let inp = arg(&args, "--in").unwrap_or("").to_string();
     let out = arg(&args, "--out").unwrap_or("").to_string();
+    // library suites run with a logger installed at Trace level: log arguments are evaluated lazily, so code that only runs
+    // when a record is formatted (slices, unwraps inside log macros) is exercised too. (The server suite sets its own levels.)
+    if !matches!(args[1].as_str(), "server" | "proc" | "client" | "selfcheck") {
+        rig::install_logger();
+        rig::set_log_level(5);
+    }
     match (args[1].as_str(), args[2].as_str()) {
         ("merkle", "replay") => s_merkle::replay(&inp),
         ("merkle", "record") => s_merkle::record(seed, &tier, &out),
